@@ -249,7 +249,7 @@ def body(chk: check.Check):
         chk.count(key, val['n'])
         chk.sample(dict(rows=key, expected_twice_totals_point1=rec['totals'][0]['weighted']))
         for m in val['mismatches']:
-            chk.violation('replay:' + m['what'].split(' T=')[0][:50], dict(rows=key, **m), match=dict(kind='value'))
+            chk.violation('replay:' + m['what'].split(' T=')[0][:50], {**dict(rows=key), **m}, match=dict(kind='value'))
     # (D) whole sessions at the engine boundary (construction, likelihood, derivatives, simulation, estimation with
     # bootstrap, validation) validated by Engine.tla
     from vb import enginetrace
